@@ -72,7 +72,8 @@ class PWM(PoupoolActor):
                 )
             if self.__state:
                 self.__security_duration.update(datetime.now())
-                if self.__duration >= duty_on and duty_on != self.period:
+                security_ok = not self.__security_duration.elapsed()
+                if (self.__duration >= duty_on and duty_on != self.period) or not security_ok:
                     self.__duration = 0
                     self.__state = False
                     self.__pump.off()
